@@ -18,4 +18,22 @@ theorem to_wpr_gimbal_roundtrip (rx rz : ℝ) :
     eulerMat (GenRs.to_wpr m).1 (GenRs.to_wpr m).2.1 (GenRs.to_wpr m).2.2 = m := by
   intro m
   rw [C08T.to_wpr_eq]; exact C08.toWpr_gimbal rx rz
+/-! ### which pairs `point_point_jacobian` treats as coincident (regenerated guard) -/
+
+/-- the row is zeroed only for pairs closer than 1e-8: a squared separation of at least `(1e-8)²` is never
+    "coincident" — a pair 1e-6 or 1e-4 apart keeps its true derivative -/
+theorem pp_coincident_only_below_1e_8 (m : V3 ℝ) (h : (1 : ℝ) / 10 ^ 16 ≤ V3.normSq m) :
+    GenRs.pp_coincident m = false := by
+  unfold GenRs.pp_coincident
+  rw [ofRatR]
+  simp only [decide_eq_false_iff_not, not_lt]
+  norm_num at h ⊢
+  exact h
+
+/-- and an exactly coincident pair is -/
+theorem pp_coincident_at_zero : GenRs.pp_coincident (⟨0, 0, 0⟩ : V3 ℝ) = true := by
+  unfold GenRs.pp_coincident
+  rw [ofRatR]
+  simp [V3.normSq, V3.dot]
+
 end C08U
